@@ -77,6 +77,14 @@ func buildCorpus(thorough bool) []corpusReg {
 	for _, sc := range []string{"map-grow-lim", "map-drain-front"} {
 		run(256, sc, map[uint64][4]uint64{}, Script(sc, 64), steps)
 	}
+	// nested children of every kind (inlined, standalone, wrapped, composite maps of two types sharing type
+	// information) in every slab of multi-level parents
+	for _, sc := range []string{"arr-kids", "arr-kids-compact"} {
+		run(256, sc, nil, Script(sc, 40), steps)
+	}
+	for _, sc := range []string{"map-kids", "map-kids-compact"} {
+		run(256, sc, map[uint64][4]uint64{}, Script(sc, 40), steps)
+	}
 	// real hashing maps
 	{
 		var ops []Op
@@ -222,6 +230,152 @@ func itemBoundaries(b []byte, off int, depth int, out *[]int) {
 		}
 		off += l
 	}
+}
+
+// structuralEdits returns the WELL-FORMED one-edit neighbours of a register: for every CBOR array reachable
+// from the given top-level offsets, every element duplicated / deleted with the array's head count adjusted,
+// and for every byte string whose length is a multiple of 8 (digest lists) 8 bytes appended / removed with
+// the length adjusted.  These keep the CBOR syntax intact, so they reach the decoder's consistency checks
+// between counts that are stored in different places.
+func structuralEdits(b []byte, starts []int) [][]byte {
+	var out [][]byte
+	bump := func(off int, n int, arg uint64, delta int) []byte {
+		// returns a copy of b with the head argument at off changed by delta, or nil if it does not fit the head
+		na := int64(arg) + int64(delta)
+		if na < 0 {
+			return nil
+		}
+		c := append([]byte(nil), b...)
+		ai := b[off] & 0x1f
+		switch {
+		case ai < 24:
+			if na > 23 {
+				return nil
+			}
+			c[off] = b[off]&0xe0 | byte(na)
+		case ai == 24:
+			if na > 255 {
+				return nil
+			}
+			c[off+1] = byte(na)
+		case ai == 25:
+			if na > 65535 {
+				return nil
+			}
+			binary.BigEndian.PutUint16(c[off+1:], uint16(na))
+		default:
+			return nil
+		}
+		return c
+	}
+	var walk func(off, depth int) int
+	walk = func(off, depth int) int {
+		if off >= len(b) || depth > 10 || len(out) > 4000 {
+			return -1
+		}
+		l, err := cborItemLen(b[off:])
+		if err != nil || l == 0 {
+			return -1
+		}
+		major, arg, n, _ := cborHead(b[off:])
+		switch major {
+		case 2:
+			if arg > 0 && arg%8 == 0 {
+				if c := bump(off, n, arg, 8); c != nil {
+					c = append(append(append([]byte(nil), c[:off+l]...), 0, 0, 0, 0, 0, 0, 0, 9), c[off+l:]...)
+					out = append(out, c)
+				}
+				if c := bump(off, n, arg, -8); c != nil {
+					c = append(append([]byte(nil), c[:off+l-8]...), c[off+l:]...)
+					out = append(out, c)
+				}
+			}
+		case 4:
+			eo := off + n
+			var elems [][2]int
+			for i := uint64(0); i < arg; i++ {
+				el, err := cborItemLen(b[eo:])
+				if err != nil {
+					return off + l
+				}
+				elems = append(elems, [2]int{eo, el})
+				eo += el
+			}
+			for _, e := range elems {
+				if c := bump(off, n, arg, 1); c != nil {
+					c = append(append(append([]byte(nil), c[:e[0]+e[1]]...), b[e[0]:e[0]+e[1]]...), c[e[0]+e[1]:]...)
+					out = append(out, c)
+				}
+				if c := bump(off, n, arg, -1); c != nil {
+					c = append(append([]byte(nil), c[:e[0]]...), c[e[0]+e[1]:]...)
+					out = append(out, c)
+				}
+			}
+			for _, e := range elems {
+				walk(e[0], depth+1)
+			}
+		case 5:
+			eo := off + n
+			for i := uint64(0); i < 2*arg; i++ {
+				if nx := walk(eo, depth+1); nx < 0 {
+					break
+				} else {
+					eo = nx
+				}
+			}
+		case 6:
+			walk(off+n, depth+1)
+		}
+		return off + l
+	}
+	for _, st := range starts {
+		for off := st; off >= 0 && off < len(b); {
+			off = walk(off, 0)
+		}
+	}
+	return out
+}
+
+// regStarts: offsets at which sequences of top-level CBOR items start in a register.
+func regStarts(base []byte) []int {
+	lay, err := ParseRegLayout(base)
+	if err != nil {
+		return nil
+	}
+	st := []int{2}
+	if lay.ContentStart > 2 {
+		st = []int{}
+		if lay.Root || lay.HasInlined {
+			// extra data sections are walked from offset 2 up to the content start only
+			st = append(st, 2)
+		}
+		cs := lay.ContentStart
+		if lay.HasNext && lay.Version == 1 {
+			cs += 16
+		}
+		st = append(st, cs)
+	}
+	return st
+}
+
+// smallDeltas: the values a byte is changed to in the pair neighbourhood: +-1, +-2 and every single-bit flip.
+func smallDeltas(v byte) []byte {
+	seen := map[byte]bool{v: true}
+	var out []byte
+	add := func(x byte) {
+		if !seen[x] {
+			seen[x] = true
+			out = append(out, x)
+		}
+	}
+	add(v + 1)
+	add(v - 1)
+	add(v + 2)
+	add(v - 2)
+	for bit := 0; bit < 8; bit++ {
+		add(v ^ (1 << bit))
+	}
+	return out
 }
 
 type c19Job struct {
@@ -386,6 +540,27 @@ func C19Main(jobJSON, corpusFile string) int {
 			rec(2)
 			g.batch(batch, fmt.Sprintf("head %x + all tails to length %d", heads[hi], job.Len))
 		}
+	case "pairs":
+		// two coordinated edits: every well-formed structural edit (an element or 8 digest bytes inserted /
+		// removed with the enclosing count adjusted) combined with every small change (+-1, +-2, bit flips) of
+		// every byte of the result — the shape of "a count stored in one place, the items counted in another"
+		for _, ri := range job.Regs {
+			if ri >= len(corpus) {
+				continue
+			}
+			base := corpus[ri]
+			for ei, ed := range structuralEdits(base, regStarts(base)) {
+				var batch [][]byte
+				for off := 0; off < len(ed); off++ {
+					for _, v := range smallDeltas(ed[off]) {
+						m := append([]byte(nil), ed...)
+						m[off] = v
+						batch = append(batch, m)
+					}
+				}
+				g.batch(batch, fmt.Sprintf("structural edit %d of corpus register #%d + one small byte change", ei, ri))
+			}
+		}
 	case "mut":
 		for _, ri := range job.Regs {
 			if ri >= len(corpus) {
@@ -444,6 +619,7 @@ func C19Main(jobJSON, corpusFile string) int {
 					batch = append(batch, del, dup)
 				}
 				g.batch(batch, fmt.Sprintf("item deletions/duplications of corpus register #%d", ri))
+				g.batch(structuralEdits(base, regStarts(base)), fmt.Sprintf("well-formed element insertions/deletions (counts adjusted) of corpus register #%d", ri))
 				// splices with the next registers of the corpus at item boundaries
 				batch = batch[:0]
 				for step := 1; step <= 3; step++ {
@@ -504,7 +680,7 @@ func init() {
 }
 
 func runC19(r *Run) {
-	r.Rule = "bounded-exhaustive inputs to DecodeSlab and the three header queries: (i) ALL byte strings of length <= 3 and all 4-byte strings (thorough: selected 5-byte) starting with one of the 180 two-byte heads the decoder dispatches on; (ii) for every distinct register of a corpus produced by the other drivers (every slab kind, inlined/compact/collision shapes, large values; plus their version-0 re-encodings): every truncation, every single-byte substitution (255 values at every offset), deletion and duplication of every CBOR item, and splices with other registers at item boundaries. Oracle: no panic (recover), call returns (20 s watchdog), allocation per input <= 64 KiB + 2 KiB per input byte (measured per batch, drilled down per input), accessors of successfully decoded slabs do not panic. distinct_nontrivial = corpus registers mutated (each contributes its full one-edit neighbourhood)"
+	r.Rule = "bounded-exhaustive inputs to DecodeSlab and the three header queries: (i) ALL byte strings of length <= 3 and all 4-byte strings (thorough: selected 5-byte) starting with one of the 180 two-byte heads the decoder dispatches on; (ii) for every distinct register of a corpus produced by the other drivers (every slab kind, inlined/compact/collision shapes, large values; plus their version-0 re-encodings): every truncation, every single-byte substitution (255 values at every offset), deletion and duplication of every CBOR item, every WELL-FORMED element insertion/deletion (array count or digest-list length adjusted), splices with other registers at item boundaries, and for the short registers the PAIR neighbourhood: every well-formed structural edit combined with every small change (+-1, +-2, single-bit flips) of every byte. Oracle: no panic (recover), call returns (20 s watchdog), allocation per input <= 64 KiB + 2 KiB per input byte (measured per batch, drilled down per input), accessors of successfully decoded slabs do not panic. distinct_nontrivial = corpus registers mutated (each contributes its full one-edit neighbourhood)"
 	r.Assumptions = []string{
 		"the statement quantifies over all byte strings; what is decided is the stated neighbourhood",
 		"the harness's storable decoder bounds wrapper nesting (the test helper's unbounded loop is a property of the helper, not of atree)",
@@ -576,6 +752,31 @@ func runC19(r *Run) {
 		}
 		jobs = append(jobs, c19Job{Kind: "mut", Regs: regs})
 	}
+	// pair neighbourhood on the short registers, those with a shared extra-data section first
+	maxPairs, maxLen := 90, 200
+	if r.Thorough() {
+		maxPairs, maxLen = 600, 320
+	}
+	var pairRegs []int
+	for pass := 0; pass < 2; pass++ {
+		for i, c := range chosen {
+			lay, err := ParseRegLayout(c.Data)
+			if err != nil || len(c.Data) > maxLen || len(pairRegs) >= maxPairs {
+				continue
+			}
+			if (pass == 0) == lay.HasInlined {
+				pairRegs = append(pairRegs, i)
+			}
+		}
+	}
+	for i := 0; i < len(pairRegs); i += 2 {
+		j := i + 2
+		if j > len(pairRegs) {
+			j = len(pairRegs)
+		}
+		jobs = append(jobs, c19Job{Kind: "pairs", Regs: pairRegs[i:j]})
+	}
+	r.Extra["registers_with_pair_neighbourhood"] = len(pairRegs)
 	exe, _ := os.Executable()
 	sem := make(chan struct{}, NumWorkers())
 	var wg sync.WaitGroup
